@@ -17,7 +17,7 @@
    resolved profile as pair shares (1, 1/2, 0); equality of the counts for never-tied pairs. *)
 From VK Require Import Base Core Pairwise.
 From VK.Spec Require Import ScoreSpec.
-From VK.Proofs Require Import C12_margin.
+From VK.Proofs Require Import C04_scoring C12_expand C12_margin.
 From Coq Require Import Permutation.
 
 Section C12_margin.
@@ -56,10 +56,59 @@ Proof. exact (resolve_margin cand ceqb ceqb_spec). Qed.
 
 (* ---------- 2. the score dictionaries of the resolved profile ---------- *)
 
-(* same candidate set => first_place_votes and borda_scores are the same finite maps: same keys,
-   and equal scores wherever both list the candidate *)
+(* Since the library fix "resolve_profile_ties keeps the profile's candidate list" the resolved
+   profile has the candidate list of the tied one.  (Before the fix the candidates were re-inferred
+   from the expanded ballots, a candidate nobody ranked disappeared, and the theorems below needed the
+   premise [Permutation (cands p') (cands p)]: see ex_zero_vote_candidate.) *)
+
+(* a non-empty candidate list is returned unchanged: same candidates, same order *)
+Theorem c12_resolve_keeps_candidates : forall (p p' : profile),
+  resolve_profile_ties p = inl p' -> cands p <> [] -> cands p' = cands p.
+Proof. exact (C12_expand.resolve_keeps_candidates cand ceqb ceqb_spec). Qed.
+
+(* (in every successful call both candidate lists are duplicate-free: c12_resolve_cands_NoDup in
+   Properties/C12.v) *)
+
+(* an EMPTY candidate list (model of PreferenceProfile(candidates=())) is the one case in which the
+   candidates are still inferred: exactly the candidates ranked on a ballot of positive weight,
+   together with the score keys of the positive-weight ballots WITHOUT a tie (such a ballot is passed
+   on as it is; the expansions of a tied ballot carry no scores) *)
+Theorem c12_resolve_inferred_candidates : forall (p p' : profile),
+  resolve_profile_ties p = inl p' -> cands p = [] ->
+  NoDup (cands p') /\
+  forall c, In c (cands p') <->
+    exists b, In b (ballots p) /\ 0 < wt b /\
+      (In c (flat (rk b)) \/
+       (Forall (fun g => length g = 1%nat) (rk b) /\ In c (map fst (sc b)))).
+Proof. exact (resolve_inferred_candidates cand ceqb ceqb_spec). Qed.
+
+(* ... but then the tied profile has a score dictionary only if it has no ballot at all (a ballot
+   must rank somebody, and nobody is a known candidate: KeyError), and a profile without ballots is
+   returned with its candidate list.  Hence: whenever the tied profile can be scored, and whenever
+   it is well-formed, the candidate list is kept -- empty or not *)
+Theorem c12_resolve_keeps_candidates_scored : forall (p p' : profile),
+  resolve_profile_ties p = inl p' ->
+  (forall v d, cands p = [] -> score_rankings p v = inl d -> ballots p = []) /\
+  (ballots p = [] -> cands p' = cands p /\ ballots p' = []) /\
+  (forall v d, score_rankings p v = inl d -> cands p' = cands p) /\
+  (forall d, first_place_votes p = inl d -> cands p' = cands p) /\
+  (forall d, borda_scores p = inl d -> cands p' = cands p) /\
+  (wf_profile p -> cands p' = cands p).
+Proof.
+  intros p p' H. split; [|split; [|split; [|split; [|split]]]].
+  - intros v d. exact (scored_no_cands cand ceqb ceqb_spec p v d).
+  - exact (resolve_no_ballots cand ceqb ceqb_spec p p' H).
+  - intros v d Hd. exact (resolve_cands_scored cand ceqb ceqb_spec p p' v d H Hd).
+  - intros d Hd. exact (resolve_cands_scored cand ceqb ceqb_spec p p' _ d H Hd).
+  - intros d Hd. exact (resolve_cands_scored cand ceqb ceqb_spec p p' _ d H Hd).
+  - intros Hwf. exact (resolve_cands_wf cand ceqb ceqb_spec p p' Hwf H).
+Qed.
+
+(* first_place_votes and borda_scores of the tied and of the resolved profile are the same finite
+   maps: same keys, and equal scores wherever both list the candidate.  NO premise on the
+   candidates any more (was: Permutation (cands p') (cands p)) *)
 Theorem c12_resolve_scores_invariant : forall (p p' : profile),
-  resolve_profile_ties p = inl p' -> Permutation (cands p') (cands p) ->
+  resolve_profile_ties p = inl p' ->
   Forall (fun b => Forall (@NoDup cand) (rk b)) (ballots p) ->
   (forall d d', first_place_votes p = inl d -> first_place_votes p' = inl d' ->
      Permutation (map fst d') (map fst d) /\
@@ -69,26 +118,41 @@ Theorem c12_resolve_scores_invariant : forall (p p' : profile),
      forall c q q', In (c, q) d -> In (c, q') d' -> q == q').
 Proof. exact (resolve_scores_invariant cand ceqb ceqb_spec). Qed.
 
+(* the keys are even the same LIST *)
+Theorem c12_resolve_score_keys : forall (p p' : profile),
+  resolve_profile_ties p = inl p' ->
+  forall v d d', score_rankings p v = inl d -> score_rankings p' v = inl d' -> map fst d' = map fst d.
+Proof.
+  intros p p' H v d d' Hd Hd'.
+  rewrite (C04_scoring.score_rankings_keys cand ceqb p v d Hd),
+          (C04_scoring.score_rankings_keys cand ceqb p' v d' Hd').
+  exact (resolve_cands_scored cand ceqb ceqb_spec p p' v d H Hd).
+Qed.
+
 (* the same for score_profile_from_rankings with ANY explicitly given score vector *)
 Theorem c12_resolve_score_rankings_invariant : forall (p p' : profile),
-  resolve_profile_ties p = inl p' -> Permutation (cands p') (cands p) ->
+  resolve_profile_ties p = inl p' ->
   Forall (fun b => Forall (@NoDup cand) (rk b)) (ballots p) ->
   forall v d d', score_rankings p v = inl d -> score_rankings p' v = inl d' ->
     Permutation (map fst d') (map fst d) /\
     forall c q q', In (c, q) d -> In (c, q') d' -> q == q'.
 Proof. exact (resolve_score_rankings cand ceqb ceqb_spec). Qed.
 
-(* on a well-formed profile the resolved profile is well-formed again, and its score dictionaries
-   exist whenever those of the tied profile do *)
+(* on a well-formed profile the resolved profile is well-formed again, over the same candidate
+   list, and its score dictionaries exist whenever those of the tied profile do *)
 Theorem c12_resolve_scores_defined : forall (p p' : profile), wf_profile p ->
-  resolve_profile_ties p = inl p' -> Permutation (cands p') (cands p) ->
-  wf_profile p' /\
+  resolve_profile_ties p = inl p' ->
+  wf_profile p' /\ cands p' = cands p /\
   (forall d, first_place_votes p = inl d -> exists d', first_place_votes p' = inl d') /\
-  (forall d, borda_scores p = inl d -> exists d', borda_scores p' = inl d').
+  (forall d, borda_scores p = inl d -> exists d', borda_scores p' = inl d') /\
+  (forall v d, score_rankings p v = inl d -> exists d', score_rankings p' v = inl d').
 Proof.
-  exact (fun p p' Hwf Hres Hperm =>
-    conj (resolve_wf cand ceqb ceqb_spec p p' Hwf Hres Hperm)
-         (resolve_fpv_borda_defined cand ceqb ceqb_spec p p' Hwf Hres Hperm)).
+  exact (fun p p' Hwf Hres =>
+    conj (resolve_wf cand ceqb ceqb_spec p p' Hwf Hres)
+      (conj (resolve_cands_wf cand ceqb ceqb_spec p p' Hwf Hres)
+         (conj (proj1 (resolve_fpv_borda_defined cand ceqb ceqb_spec p p' Hwf Hres))
+            (conj (proj2 (resolve_fpv_borda_defined cand ceqb ceqb_spec p p' Hwf Hres))
+                  (resolve_scores_defined cand ceqb ceqb_spec p p' Hwf Hres))))).
 Qed.
 
 (* ---------- 3. remove_cand on a profile: no removed candidate anywhere ---------- *)
@@ -179,24 +243,50 @@ Theorem c12_margin_dup_position_refuted :
       Pairwise.h2h positive Pos.eqb (ballots p) a c - Pairwise.h2h positive Pos.eqb (ballots p) c a.
 Proof. exact C12MarginWitness.margin_dup_position_refuted. Qed.
 
-(* c12_resolve_scores_invariant without "same candidate set": candidates (1,2,3), ballots {1,2} x2,
-   1 x1.  Candidate 3 has no votes; resolve_profile_ties infers the candidates {1,2} from the ballots;
-   the default Borda vector shrinks from (3,2,1) to (2,1): Borda 1: 8 -> 5, 2: 13/2 -> 4, 3: 7/2 ->
-   no key; first_place_votes loses the key 3 *)
-Theorem c12_resolve_scores_invariant_refuted :
-  exists (p p' : Core.profile positive),
-    Core.resolve_profile_ties positive Pos.eqb p = inl p' /\
-    Forall (fun b => Forall (@NoDup positive) (rk b)) (ballots p) /\
-    NoDup (cands p) /\
-    ~ Permutation (cands p') (cands p) /\
-    (exists d d', Core.borda_scores positive Pos.eqb p = inl d /\
-                  Core.borda_scores positive Pos.eqb p' = inl d' /\
-                  ~ Permutation (map fst d') (map fst d) /\
-                  exists c q q', In (c, q) d /\ In (c, q') d' /\ ~ q == q') /\
-    (exists d d', Core.first_place_votes positive Pos.eqb p = inl d /\
-                  Core.first_place_votes positive Pos.eqb p' = inl d' /\
-                  ~ Permutation (map fst d') (map fst d)).
-Proof. exact C12MarginWitness.resolve_scores_invariant_refuted. Qed.
+(* The witness that REFUTED c12_resolve_scores_invariant (without "same candidate set") before the
+   library fix "resolve_profile_ties keeps the profile's candidate list": candidates (1,2,3), ballots
+   {1,2} x2, 1 x1; candidate 3 has no votes.  resolve_profile_ties used to infer the candidates
+   {1,2} from the ballots, the default Borda vector shrank from (3,2,1) to (2,1): Borda 1: 8 -> 5,
+   2: 13/2 -> 4, 3: 7/2 -> no key, and first_place_votes lost the key 3.  The former theorem
+   c12_resolve_scores_invariant_refuted is now FALSE for the model; on this very witness the candidate
+   list is kept and both dictionaries are unchanged: Borda 8, 13/2, 7/2 and first place 2, 1, 0,
+   before and after *)
+Example ex_zero_vote_candidate :
+  exists p' : Core.profile positive,
+    Core.resolve_profile_ties positive Pos.eqb
+      (mkProfile [plain_ballot positive [[1; 2]] 2; plain_ballot positive [[1]] 1] [1; 2; 3])%positive
+      = inl p' /\
+    cands p' = [1; 2; 3]%positive /\
+    map rk (ballots p') = [[[1]; [2]]; [[2]; [1]]; [[1]]]%positive /\
+    (exists d d',
+       Core.borda_scores positive Pos.eqb
+         (mkProfile [plain_ballot positive [[1; 2]] 2; plain_ballot positive [[1]] 1] [1; 2; 3])%positive
+         = inl d /\
+       Core.borda_scores positive Pos.eqb p' = inl d' /\
+       map fst d = [1; 2; 3]%positive /\ map fst d' = [1; 2; 3]%positive /\
+       Forall2 Qeq (map snd d) [8; 13 # 2; 7 # 2] /\
+       Forall2 Qeq (map snd d') [8; 13 # 2; 7 # 2]) /\
+    (exists d d',
+       Core.first_place_votes positive Pos.eqb
+         (mkProfile [plain_ballot positive [[1; 2]] 2; plain_ballot positive [[1]] 1] [1; 2; 3])%positive
+         = inl d /\
+       Core.first_place_votes positive Pos.eqb p' = inl d' /\
+       map fst d = [1; 2; 3]%positive /\ map fst d' = [1; 2; 3]%positive /\
+       Forall2 Qeq (map snd d) [2; 1; 0] /\
+       Forall2 Qeq (map snd d') [2; 1; 0]).
+Proof. exact C12MarginWitness.resolve_scores_zero_vote_candidate. Qed.
+
+(* with an EMPTY candidate list the candidates are still inferred ({1,2} here); the tied profile
+   cannot be scored (KeyError), the resolved one can: the invariance theorems hold vacuously *)
+Example ex_inferred_candidates :
+  exists p' d',
+    Core.resolve_profile_ties positive Pos.eqb
+      (mkProfile [plain_ballot positive [[1; 2]] 2; plain_ballot positive [[1]] 1] [])%positive = inl p' /\
+    Permutation (cands p') [1; 2]%positive /\
+    Core.borda_scores positive Pos.eqb
+      (mkProfile [plain_ballot positive [[1; 2]] 2; plain_ballot positive [[1]] 1] [])%positive = inr EKey /\
+    Core.borda_scores positive Pos.eqb p' = inl d' /\ length d' = 2%nat.
+Proof. exact C12MarginWitness.resolve_inferred_scores. Qed.
 
 (* add_missing_ballot [1;2;3] on the ballot "1": the unlisted candidate 2 gains Borda points
    (0 -> 3/2), the unlisted pair (2,3) gains a full count (0 -> 1), the margin of 2 against the
@@ -215,7 +305,11 @@ Theorem c12_add_missing_unlisted_refuted :
 Proof. exact C12MarginWitness.add_missing_unlisted_refuted. Qed.
 
 Print Assumptions c12_margin_invariant.
+Print Assumptions c12_resolve_keeps_candidates.
+Print Assumptions c12_resolve_inferred_candidates.
+Print Assumptions c12_resolve_keeps_candidates_scored.
 Print Assumptions c12_resolve_scores_invariant.
+Print Assumptions c12_resolve_score_keys.
 Print Assumptions c12_resolve_score_rankings_invariant.
 Print Assumptions c12_resolve_scores_defined.
 Print Assumptions c12_remove_cand_profile_clean.
@@ -225,7 +319,8 @@ Print Assumptions c12_add_missing_scores_preserved.
 Print Assumptions c12_add_missing_profile_scores.
 Print Assumptions c12_counts_invariant_refuted.
 Print Assumptions c12_margin_dup_position_refuted.
-Print Assumptions c12_resolve_scores_invariant_refuted.
+Print Assumptions ex_zero_vote_candidate.
+Print Assumptions ex_inferred_candidates.
 Print Assumptions c12_add_missing_unlisted_refuted.
 
 (* ---------- non-vacuity (cand := positive) ---------- *)
@@ -241,11 +336,11 @@ Definition p0 : Core.profile positive :=
   mkProfile [pb [[1; 2]; [3]] 3; pb [[2]; [1]] 1; pb [[1]; [2]; [3]] 2] [1; 2; 3].
 
 (* the hypotheses of c12_margin_invariant / c12_resolve_scores_invariant / _defined hold, the
-   counts move (5 -> 7/2 and 4 -> 5/2) while the margin stays 1; both Borda dictionaries exist and
+   candidate list is kept, the counts move (5 -> 7/2 and 4 -> 5/2) while the margin stays 1; both Borda dictionaries exist and
    agree: 1 -> 31/2, 2 -> 29/2, 3 -> 6 *)
 Example ex_resolve :
   exists p', Core.resolve_profile_ties positive Pos.eqb p0 = inl p' /\
-    Permutation (cands p') (cands p0) /\
+    cands p' = cands p0 /\
     Forall (fun b => Forall (@NoDup positive) (rk b)) (ballots p0) /\
     ScoreSpec.wf_profile positive p0 /\
     Pairwise.h2h positive Pos.eqb (ballots p0) 1 2 == 5 /\
@@ -260,7 +355,7 @@ Example ex_resolve :
                   Core.first_place_votes positive Pos.eqb p' = inl d' /\ length d' = 3%nat).
 Proof.
   eexists. split; [vm_compute; reflexivity|]. split.
-  { apply Permutation_refl. }
+  { reflexivity. }
   split.
   { repeat (constructor; [repeat (constructor; [nodup_pos|]); constructor|]). constructor. }
   split.
